@@ -141,3 +141,13 @@ def _(c):
               label='one-row-per-time-point')
     c.ensures('arr(sim.initial_state) == old(arr(sim.initial_state))', label='initial-condition-untouched')
     c.opt(result_class='SSAResult')
+
+
+@fuc('simulator', I + 'apply_repeated_volume_rules', props=PROPS)
+def _(c):
+    c.abstract = True
+    c.verify_body = False
+    c.requires('len(state) >= self.num_species')
+    c.ensures('arr(state) == afun("vrules_state", self, old(arr(state)), old(ghost("pvals")), volume, time, rule_step)', label='state-after-rules')
+    c.ensures('ghost("pvals") == afun("vrules_params", self, old(arr(state)), old(ghost("pvals")), volume, time, rule_step)', label='params-after-rules')
+    c.modifies('state[*]', 'ghost:pvals')
